@@ -14,6 +14,7 @@ limitations under the License.
 package dir
 
 import (
+	"errors"
 	"fmt"
 	"os"
 	"path/filepath"
@@ -64,6 +65,13 @@ func (d *Dir) Write(files map[string][]byte) error {
 			return err
 		}
 		d.log.Infof("Written file %s", file)
+	}
+
+	// A Write that was interrupted between the symlink and the rename below
+	// leaves <target>.new behind. Remove it, otherwise the symlink fails with
+	// "file exists" on this and every later Write.
+	if err := os.Remove(d.target + ".new"); err != nil && !errors.Is(err, os.ErrNotExist) {
+		return err
 	}
 
 	if err := os.Symlink(newDir, d.target+".new"); err != nil {
